@@ -185,6 +185,18 @@ func setViaOps(ss []rstep, rng *mon.RNG, runBias int) {
 func runRacing(t *testing.T, idx int, rng *mon.RNG) {
 	ctl, workers, hold := genRacing(rng)
 	chain := pickChain(rng, false)
+	for _, ss := range append([][]rstep{ctl}, workers...) {
+		for i := range ss {
+			if ss[i].Kind == "add" {
+				genBad(rng, chain, &ss[i].Spec)
+			}
+			for k := range ss[i].Ops {
+				if ss[i].Ops[k].Kind == "add" {
+					genBad(rng, chain, &ss[i].Ops[k].Spec)
+				}
+			}
+		}
+	}
 	if chain != "none" {
 		blocky := func(ss []rstep) {
 			for i := range ss {
